@@ -372,7 +372,7 @@ PROPS["C17"] = dict(
                                                   "lww_merge_conflict_iff", "lww_symmetric", "lww_ok_reachable"]] + ["Crdt.Witness.validate_merge_flags_correct_add_all"],
     profiles=[dict(name="orswot_vm", quick=1200, thorough=25000), dict(name="lww_conflict", quick=300, thorough=5000), dict(name="lattice_hist", quick=600, thorough=10000),
               dict(name="map_corr", quick=600, thorough=10000)],
-    oracle_fields=["vm", "vmr"],
+    oracle_fields=["vm", "vmr", "vmchk"],
     explanation="Orswot::validate_merge characterised exactly for all states (Ok iff no two different members share a live dot across the two states), symmetric on well-formed states, Ok for all pairs of reachable states in "
                 "histories whose adds name one member each, misuse (one dot live for different members) always flagged; LWWReg conflict iff equal marker and different value, symmetric, never between reachable registers with unique markers. "
                 "Oracle: VM in both directions before every merge in correct-use histories must be ok; GA (same actor at two replicas) histories for the misuse side. Map::validate_merge: correspondence only (map_corr VM commands). "
@@ -501,3 +501,5 @@ PROPS["C07"]["required_theorems"] += ["Crdt.C07.map_add_clock_covers", "Crdt.C07
 PROPS["C07"]["statement_coverage"] = "proved for every read entry point of top-level Orswot (read, read_ctx, contains, iter), MVReg (read, read_ctx) and Map (get, keys, values, iter, len, is_empty, read_ctx; any value type)"
 PROPS["C20"]["required_theorems"] += ["Crdt.C20.map_no_pending_residue", "Crdt.C20.map_no_empty_entry"]
 PROPS["C16"]["explanation"] += " List: the driver prints the verdict predicted from the knowledge set (clock = per-actor newest known dot, C12.state_eq_spec) and the implementation is compared with it."
+PROPS["C17"]["profiles"] = PROPS["C17"]["profiles"] + [dict(name="map_vm", quick=900, thorough=15000)]
+PROPS["C17"]["explanation"] += " map_vm: Map::validate_merge under correct use and under deliberate reuse of one actor id at two replicas (keys present in both maps or in one), all three nestings, both directions – model/implementation correspondence."
